@@ -378,6 +378,11 @@ class Program:
         from .inline import inline_view
         return inline_view(self, cls, self.method(cls, name))
 
+    def func_view(self, short: str, module: str) -> Func:
+        """module-level function with the module's private helper functions inlined"""
+        from .inline import inline_view
+        return inline_view(self, None, self.func(short, module))
+
     def resolve_view(self, cls: Cls, name: str) -> Optional[Func]:
         from .inline import inline_view
         f = self.resolve(cls, name)
